@@ -131,7 +131,7 @@ def _finish(orc: pyrt.Oracle, fn: Any) -> Dict[str, Any]:
     return {"events": orc.events, "outcome": outcome, "used": orc.i}
 
 
-def run_function(text: str, fname: str, script: Sequence[str]) -> Dict[str, Any]:
+def run_function(text: str, fname: str, script: Sequence[str], pnames: Sequence[str] = ("a", "b", "c")) -> Dict[str, Any]:
     """Execute a function given as source text (the original or the regenerated one) under a scripted oracle."""
     orc = pyrt.Oracle(script)
     ns: Dict[str, Any] = dict(pyrt.externals(orc))
@@ -140,13 +140,13 @@ def run_function(text: str, fname: str, script: Sequence[str]) -> Dict[str, Any]
     f = ns[fname]
 
     def go() -> Any:
-        args = pyrt.params(orc, ["a", "b", "c"])
+        args = pyrt.params(orc, list(pnames))
         return f(*args)
 
     return _finish(orc, go)
 
 
-def run_blocks(src: str, script: Sequence[str]) -> Dict[str, Any]:
+def run_blocks(src: str, script: Sequence[str], pnames: Sequence[str] = ("a", "b", "c")) -> Dict[str, Any]:
     """C08: interpret the graph built from the source block by block, exactly as the property defines it:
     run the block's statements; with two successors evaluate its last expression and take the first if true, else the
     second; stop at a return."""
@@ -157,8 +157,8 @@ def run_blocks(src: str, script: Sequence[str]) -> Dict[str, Any]:
     ns: Dict[str, Any] = dict(pyrt.externals(orc))
 
     def go() -> Any:
-        args = pyrt.params(orc, ["a", "b", "c"])
-        ns.update(dict(zip(["a", "b", "c"], args)))
+        args = pyrt.params(orc, list(pnames))
+        ns.update(dict(zip(list(pnames), args)))
         cur = "0"
         steps = 0
         while True:
